@@ -15,6 +15,7 @@ CONSTANTS
   MaxAtt = 2
   Crashes = FALSE
   StartBy = 1
+  StartFrom = 0
   HealOdds = 3
   ListLag = FALSE
   FixSkew = FALSE
